@@ -167,7 +167,9 @@ def parseRow (tys : List Ty) (nullable : List Bool) (s : String) : Option Row :=
   | [a, b], [t0, t1], [n0, n1] =>
     match parseCell t0 a, parseCell t1 b with
     | some x, some y =>
-      if (x.isNone && !(n0 && t0.isBytes)) || (y.isNone && !(n1 && t1.isBytes)) then none else some [x, y]
+      if (x.isNone && !(n0 && t0.isBytes)) || (y.isNone && !(n1 && t1.isBytes)) then none
+      else if x == some (.bytes []) || y == some (.bytes []) then none
+      else some [x, y]
     | _, _ => none
   | _, _, _ => none
 
@@ -207,6 +209,7 @@ def step (s : St) (line : String) : St × String :=
       | some rows =>
         let t : Table := { tys := [t0, t1], cols := [⟨t0.ct, n0⟩, ⟨t1.ct, n1⟩], g := g, rows := rows }
         let pages := pagesOf g rows.length rows
+        if pages.any (fun pg => writePanics validUtf8 PREFIX pg 0 t.cols) then (none, "err write_panic") else
         (some t, "pages=" ++ toString pages.length ++ " " ++ "|".intercalate (pages.map (showPage t)))
       | none => (none, bad)
     | _, _, _, _, _, _ => (none, bad)
